@@ -20,6 +20,15 @@ class PropertyViolation(Exception):
         self.cls = cls or clause
 
 
+class Discard(Exception):
+    """The case cannot be judged within the harness' budget (e.g. a Monte-Carlo search that does not stop within
+    the step cap): counted under coverage.discards with its reason - inconclusive, never a violation."""
+
+    def __init__(self, reason):
+        super().__init__(reason)
+        self.reason = reason
+
+
 class HarnessError(Exception):
     """The harness (generator / model) is wrong or starved; exit 2."""
 
